@@ -516,6 +516,7 @@ def installed(env):
     class _OS:
         makedirs = staticmethod(env.makedirs)
         rename = staticmethod(env.rename)
+        replace = staticmethod(env.rename)          # os.replace: the same atomic move on POSIX
         path = _Path
 
     class _Environ:
